@@ -82,7 +82,7 @@ Lemma count_ok_rows : CM.count_deficient st = false ->
   forall f k, f < CM.st_freqs st -> k < ns ->
     unknowns ty r c <= length (q_assemble ty r c (vals f) (pvalf f) k).
 Proof.
-  intros Hc f k Hf Hk. unfold CM.count_deficient in Hc. rewrite Hpath in Hc.
+  intros Hc f k Hf Hk. unfold CM.count_deficient, CM.short_system in Hc. rewrite Hpath in Hc.
   unfold ty, r, ns, c, cf in *.
   pose proof (Hcnt f k Hf Hk) as E. cbv zeta in E. rewrite <- E. rewrite <- unknowns_agree.
   destruct (Nat.le_gt_cases (CM.unknowns (CM.cf_ty (CM.st_cf st)) (CM.cf_r (CM.st_cf st)) (CM.cf_c (CM.st_cf st)))
